@@ -2,8 +2,10 @@
 import json, os, re
 from vlib import core
 
-THEOREMS = []
-MODULES = ['LLRP.Model.ReadSide', 'LLRP.Model.ReadStages', 'LLRP.Oracle.C04', 'LLRP.Oracle.C10']
+THEOREMS = ['rd_no_panic', 'rd_total', 'ends_with_error', 'wait_only_when_closing', 'alloc_bounded', 'stage_no_panic',
+            'stage_alloc_bounded', 'oversize_is_error', 'reply_complete_or_error', 'connect_ends_with_error',
+            'old_gsv_panics', 'old_oversize_empty_success']
+MODULES = ['LLRP.Model.ReadSide', 'LLRP.Model.ReadStages', 'LLRP.Proofs.ReadSide', 'LLRP.Oracle.C04', 'LLRP.Oracle.C10']
 RULE = ('two valid session transcripts (1.0.1: greeting, two request/reply exchanges, keep-alive, tag report; 1.1: greeting, '
         'GetSupportedVersion and SetProtocolVersion exchanges, keep-alive), each frame of each transcript mutated: truncation at header '
         'bytes and payload bytes (thorough: every byte), declared length 0..9, real+-1, limit, limit+1, limit+2, 2^31, 2^32-1 (with and '
